@@ -10,10 +10,13 @@ arg=""
 if [ "$mode" != "pinned" ]; then arg="$1"; shift; fi
 [ "$1" = "--" ] && shift
 if [ -n "$(git -C /repo status --porcelain)" ]; then echo "with_change: /repo is not clean"; exit 9; fi
-restore() { git -C /repo checkout -q -- . ; git -C /repo clean -fdq -- src 2>/dev/null; }
+restore() { git -C /repo revert --abort 2>/dev/null; git -C /repo reset -q --hard HEAD; git -C /repo clean -fdq -- src 2>/dev/null; }
 trap restore EXIT
 case "$mode" in
-  revert) git -C /repo show "$arg" | git -C /repo apply -R || { echo "with_change: cannot revert $arg"; exit 9; } ;;
+  revert) if ! git -C /repo show "$arg" | git -C /repo apply -R 2>/dev/null; then
+            if [ -f "/verif/seeded/reverts/$arg.patch" ]; then git -C /repo apply "/verif/seeded/reverts/$arg.patch" || { echo "with_change: stored revert patch for $arg does not apply"; exit 9; }
+            else git -C /repo revert --no-commit "$arg" >/dev/null 2>&1 || { echo "with_change: cannot revert $arg (conflict); store a hand-made patch in /verif/seeded/reverts/$arg.patch"; exit 9; }; fi
+          fi ;;
   patch)  git -C /repo apply "$arg" || { echo "with_change: cannot apply $arg"; exit 9; } ;;
   pinned) git -C /repo checkout -q 5897763 -- src build.rs codata.txt && git -C /repo reset -q ;;
   *) echo "bad mode"; exit 9 ;;
